@@ -73,6 +73,12 @@ class Tree:
             self.mkproject(os.path.join(path, "sub", f"inner{depth}"), depth + 1)
         if rng.random() < 0.5:
             os.makedirs(os.path.join(path, "plain", "dir"), exist_ok=True)
+        if rng.random() < 0.25:
+            # directory names a shell or a path helper would expand
+            if depth < 3 and rng.random() < 0.5:
+                self.mkproject(os.path.join(path, "~"), depth + 1)
+            else:
+                os.makedirs(os.path.join(path, "~", "$HOME"), exist_ok=True)
 
     def build(self):
         rng = self.rng
